@@ -124,6 +124,22 @@ def ctor_text(spec):
 
 FORMS = ('assign', 'return', 'cast', 'castret')
 
+# Guards for the `guard:<k>` forms: the SAME rounding sits in both arms of an `if` whose condition tests the class / sign /
+# magnitude of the operand through and / or / not, so the program is still the rounding function on every operand while the
+# rewrites see each site under a different (claimed) value class.
+GUARDS = (
+    'fp.isnan(x) or x > 1000',
+    'fp.isfinite(x) and x != 0',
+    'fp.isinf(x) or x == 0',
+    'not fp.isnan(x) and x < 0',
+    'x == 0 or fp.isnan(x)',
+    'x > 1 or x < -1',
+    'fp.isnan(x) or fp.isinf(x)',
+    'not (fp.isfinite(x) and x > 0)',
+    'x >= 0 and not fp.isinf(x)',
+    'fp.isinf(x) and x > 0 or fp.isnan(x)',
+)
+
 
 def quantize_src(ctx_text: str, form: str, annotated: bool) -> str:
     """Source of the one-rounding program `q`."""
@@ -137,6 +153,10 @@ def quantize_src(ctx_text: str, form: str, annotated: bool) -> str:
         return head + '        y = fp.cast(x)\n    return y\n'
     if form == 'castret':
         return head + '        return fp.cast(x)\n'
+    if form.startswith('guard:'):
+        g = GUARDS[int(form.split(':')[1])]
+        arm = f'        with {ctx_text}:\n            y = fp.round(x)\n'
+        return f'@fp.fpy(ctx=fp.REAL)\n{sig}\n    if {g}:\n{arm}    else:\n{arm}    return y\n'
     raise ValueError(form)
 
 
